@@ -546,8 +546,77 @@ fn shape_case(tables: &Tables, pi: usize, fi: usize, seq: &[u8]) -> Vec<Failure>
     vec![]
 }
 
+/// Z: date_trunc / EXTRACT under time zones with daylight saving (child processes, TZ from tzdata names and POSIX rules):
+/// the instants of the two change days before and after the change and ordinary days. The printed local text of
+/// date_trunc(part, ts) is the printed text of ts with the smaller fields set to their first value, and EXTRACT gives
+/// the fields of the printed text (zones with whole-hour offsets; local midnight exists on all chosen days).
+fn tz_layer(col: &Collector) {
+    let def = "CREATE TABLE z('ts=<([^>]*)>' => ts TIMESTAMP, 'k=(\\w+)' => k TEXT);";
+    let stamps = ["2021-03-28 01:30:15", "2021-03-28 03:30:15", "2021-03-28 15:00:00", "2021-03-14 01:30:00", "2021-03-14 03:30:00", "2021-03-14 23:59:59", "2021-10-31 01:30:15", "2021-10-31 03:30:15", "2021-10-31 15:45:10", "2021-11-07 00:30:00", "2021-11-07 03:30:00", "2021-11-07 22:10:05", "2021-06-15 12:34:56", "2021-01-01 00:00:00", "2021-12-31 23:59:59"];
+    let data: String = stamps.iter().map(|t| format!("k=a ts=<{}>\n", t)).collect();
+    let q = "SELECT ts AS t, date_trunc('day', ts) AS d, date_trunc('month', ts) AS m, date_trunc('year', ts) AS y, date_trunc('hour', ts) AS h, date_trunc('minute', ts) AS mi, EXTRACT(HOUR FROM ts) AS eh, EXTRACT(DAY FROM ts) AS ed, EXTRACT(MONTH FROM ts) AS em FROM z";
+    let qw = "SELECT ts AS t FROM z WHERE date_trunc('day', ts) <= ts AND EXTRACT(DAY FROM date_trunc('day', ts)) = EXTRACT(DAY FROM ts) AND EXTRACT(HOUR FROM date_trunc('day', ts)) = 0";
+    let mut n = 0u64;
+    for tz in ["UTC", "Europe/Stockholm", "America/New_York", "CET-1CEST,M3.5.0,M10.5.0/3", "EST5EDT,M3.2.0,M11.1.0", "XXX-3"] {
+        n += 1;
+        col.eval(stamps.len() as u64);
+        col.nontrivial(h64(&("Z", tz)));
+        let out = sut::run_stmt_child_env(def, q, "json", &[Some(data.as_bytes())], 30, &[("TZ", tz)]);
+        let printed: Vec<String> = match &out {
+            crate::sut::ChildOut::Done(j) => j["run"]["printed"].as_array().map(|a| a.iter().filter_map(|x| x.as_str().map(|s| s.to_string())).collect()).unwrap_or_default(),
+            _ => vec![],
+        };
+        let rows: Vec<J> = printed.iter().filter_map(|l| serde_json::from_str::<J>(l).ok()).collect();
+        let mut problems: Vec<String> = Vec::new();
+        if rows.len() != stamps.len() {
+            problems.push(format!("{} rows for {} lines", rows.len(), stamps.len()));
+        }
+        for (r, src) in rows.iter().zip(stamps.iter()) {
+            let t = r["t"].as_str().unwrap_or("");
+            if !t.starts_with(src) || t.len() < 23 {
+                problems.push(format!("ts of line <{}> printed as {:?}", src, t));
+                continue;
+            }
+            let want = [("d", format!("{} 00:00:00.000", &t[..10])), ("m", format!("{}-01 00:00:00.000", &t[..7])), ("y", format!("{}-01-01 00:00:00.000", &t[..4])), ("h", format!("{}:00:00.000", &t[..13])), ("mi", format!("{}:00.000", &t[..16]))];
+            for (c, w) in want {
+                if r[c].as_str() != Some(w.as_str()) {
+                    problems.push(format!("date_trunc {} of {} is {} (expected {})", c, t, r[c], w));
+                }
+            }
+            let wi = [("eh", t[11..13].parse::<i64>().unwrap_or(-1)), ("ed", t[8..10].parse::<i64>().unwrap_or(-1)), ("em", t[5..7].parse::<i64>().unwrap_or(-1))];
+            for (c, w) in wi {
+                if r[c].as_i64() != Some(w) {
+                    problems.push(format!("EXTRACT {} of {} is {} (expected {})", c, t, r[c], w));
+                }
+            }
+        }
+        // the WHERE form: every line passes
+        let outw = sut::run_stmt_child_env(def, qw, "json", &[Some(data.as_bytes())], 30, &[("TZ", tz)]);
+        if let crate::sut::ChildOut::Done(j) = &outw {
+            let nrows = j["run"]["printed"].as_array().map(|a| a.iter().filter(|x| x.as_str().map(|s| !s.is_empty()).unwrap_or(false)).count()).unwrap_or(0);
+            if nrows != stamps.len() {
+                problems.push(format!("WHERE on date_trunc('day') keeps {} of {} lines", nrows, stamps.len()));
+            }
+        } else {
+            problems.push("WHERE statement did not finish".into());
+        }
+        if !problems.is_empty() {
+            col.fail(fail(
+                format!("Z:time-zone:{}", problems[0].split(' ').take(2).collect::<Vec<_>>().join("-")),
+                format!("under TZ={}: {}", tz, problems.iter().take(4).cloned().collect::<Vec<_>>().join("; ")),
+                json!({"layer": "Z", "tz": tz, "statement": q}),
+                json!("fields of the printed local time"),
+                json!(problems),
+                n,
+            ));
+        }
+    }
+    col.layer("Z-date_trunc / EXTRACT under daylight-saving time zones (child processes)", n, true, json!({"zones": 6, "instants": stamps.len()}));
+}
+
 pub fn run(ctx: &Ctx) -> i32 {
     let col = Collector::new();
+    tz_layer(&col);
     let tables = sut::make_tables(DEF).unwrap();
     // D1
     let ls = leaves();
@@ -720,6 +789,12 @@ pub fn run(ctx: &Ctx) -> i32 {
 }
 
 pub fn replay(case: &J) -> Vec<Failure> {
+    if case["layer"].as_str() == Some("Z") {
+        let col = Collector::new();
+        tz_layer(&col);
+        let f = col.failures.lock().unwrap();
+        return f.values().flat_map(|v| v.iter().cloned()).filter(|f| f.case["tz"] == case["tz"]).collect();
+    }
     if case["layer"].as_str() == Some("S-empty") {
         let seq: Vec<u8> = case["seq"].as_array().unwrap().iter().map(|x| x.as_u64().unwrap() as u8).collect();
         return empty_line_case(&sut::make_tables(EDEF).unwrap(), case["si"].as_u64().unwrap() as usize, &seq);
